@@ -21,6 +21,20 @@ CLAIMS = {
          "dominance + must-held lock-region dataflow + access-path census (go/ssa)", "DESIGN.md 4 C04"),
  "C05": ("Decides the shape of the wake-up hand-shake on every path: enqueue => wake attempt before any success exit, CAS winner always emits, clear -> re-check -> re-set order of go-idle, drain loop exits only idle-and-empty, census of flag writers. The temporal claim (no stranded element under every interleaving) is NOT decided.",
          "edge-sensitive must-pass-through over the SSA CFG + ordering (dominance) rules", "DESIGN.md 4 C05"),
+ "C08": ("Decides the ownership discipline behind zero-copy reads on every path: pin before an aliasing return, recycle a consumed front slice only on the not-pinned edge (park it otherwise), pinned mark cleared only after that decision, pinned slices released only by ReleasePreviousRead / ReleaseReadAndReuse / buffer recycle on close and completely, reuse-reset only after the release. That the bytes stay bit-identical additionally depends on C01 and is NOT decided.",
+         "value-flow (alias) classification of returns + dominance / edge-placement rules + who-may-call census (go/ssa)", "DESIGN.md 4 C08"),
+ "C09": ("Decides that no exit drops a shared-memory chain: path-sensitive must-pass-through over Flush (recycle | fallback copy+recycle | successful hand-over), per-element disposal in the poller, container coverage of stream close (every *sliceList field that receives slices, pending arrivals), add-before-state-read for late data, per-slice disposal in the receive-side re-linker and in pendingData.clear, unused-tail return in done(), census of main-list pops. Quiescence accounting under concurrent schedules is NOT decided.",
+         "path-sensitive must-pass-through (branch-outcome consistent DFS over the SSA CFG) + container coverage", "DESIGN.md 4 C09"),
+ "C10": ("Decides the stream state machine structurally: census of every write of Stream.state with constant-resolved (old,new) pairs against the forward-only relation, transition ownership by call-graph role, value-directed path search through the close routine for every state a local close can start from (notify channel, one callback, peer notification), callbacks only behind a won CAS, table removal under the lock, refusal guards of Flush/reset. Orderings of two-sided close are NOT decided.",
+         "state-transition extraction (CAS operands) + role reachability + value-directed path search (go/ssa)", "DESIGN.md 4 C10"),
+ "C13": ("Decides that no panic site in wire-handling code is reachable with unchecked wire-derived operands: every bound of every make/slice/index/BigEndian access in the wire scope is proved from dominating length checks by a small linear-fact engine with inferred callee preconditions and an inductive invariant for the event loop (handlers' consumed-bytes postcondition); plus dispatch guards, message-type matrix, handshake handler guards, nil-checks of optional Session pointers, restartability of handlers and error containment. An unprovable site fails closed (UNPROVEN). Non-wire panics (OOM) and semantic equality of chunked delivery are NOT decided.",
+         "abstract interpretation over SSA (linear terms over wire atoms, facts from branch edges, no solver) + dominance rules", "DESIGN.md 4 C13"),
+ "C15": ("Decides the pool's ownership discipline on every path (pop => return-or-close, put => keep-or-close), hand-out and reuse guards (open, live session, no unread/pending bytes, state cleared), and that ring state is only touched under the pool mutex with exactly one cursor advance per successful pop/push. Histories with concurrent peer closes / session loss are NOT decided.",
+         "path-sensitive must-pass-through + must-held lock-region dataflow (go/ssa)", "DESIGN.md 4 C15"),
+ "C18": ("Decides the structure behind exactly-once/in-order event bytes: writes only under the Session.writing CAS flag (must-held dataflow, released on all exits, send loop woken), shape of the partial-write loop (cursor advanced by exactly the syscall result, never on EAGAIN), consistent use of the receive window [readStartOff:readEndOff] in callback, grow and commit, and AST-equality of the build-variant files (race/non-race dispatcher, amd64/arm64 epoll) modulo an allow-list. Kernel-IO behaviours and exactly-once as such are NOT decided.",
+         "CAS-flag region dataflow + accumulator-phi shape rules + access census of the receive window + AST equality of variant files", "DESIGN.md 4 C18"),
+ "C19": ("Decides the adapter's structural obligations: wrapped stream delivered-or-closed on every path, wait-group Add/Done pairing (each Done classified as CAS-once, membership+delete under the mutex, or drain+reset under the mutex), delegation identity of Read/Write/deadlines down to the copy paths, close/shutdown arms of Accept. Socket semantics over histories are NOT decided.",
+         "path search from select sites + classification census of WaitGroup operations + delegation identity (go/ssa)", "DESIGN.md 4 C19"),
 }
 
 NA_DEFAULT = "checker for this property not built yet (implementation in progress); see DESIGN.md"
